@@ -12,7 +12,7 @@ CLAIMS = {
   technique="TLA+ spec + TLC exhaustive check; edge-cover replay of TLC state graph into Go; TLC trace validation + property monitor of recorded traces"),
  "C11": dict(
   text="ChunkCache.tla models cache.directoryCache at the granularity at which other goroutines can observe it (wip file, buffer from the pool, "
-       "publish to the buffer LRU, persist-write, rename, fd LRU, readers over buffer/fd/file), assuming the LRU contract of C10. TLC checks "
+       "publish to the buffer LRU, persist-write, rename, fd LRU, readers over buffer/fd/file, Close() clearing both LRUs and removing the directory), assuming the LRU contract of C10. TLC checks "
        "HitIsCommitted / ReadsAreCommitted / NoRecycleWhileReferenced / FinalFilesComplete exhaustively (2 keys, 2-3 writers, 2 readers, capacities 1) "
        "with negative controls (recycle regardless of holders, rename before write, reader not holding). Binding: every edge of the generation graphs "
        "(memory+fd+file layers, direct mode, sync and async persistence) is stepped through a real directoryCache with the persistence goroutine held at "
@@ -20,7 +20,7 @@ CLAIMS = {
        "cache) are recorded and the C11 formulas evaluated by the TLC monitor on every recorded read result; -race on throughout.",
   design_ref="DESIGN.md 3 (C11), 2.4, 2.5",
   note="Bounded models; free-running executions are decided by the monitor only (no conformance spec for their interleavings); bytes are abstracted "
-       "to (writer, number of pieces); disk I/O errors and misuse of a Writer (Commit twice, Write after Commit) are out of scope. Trusted: TLC, the projection in harness/cache.",
+       "to (writer, number of pieces); disk I/O errors only as a failing shard-directory creation under fs/reader.cacheData (reader-fault stage); misuse of a Writer (Commit twice, Write after Commit) is out of scope; Close racing with a persistence goroutine is not followed. Trusted: TLC, the projection in harness/cache.",
   technique="TLA+ spec + TLC exhaustive check; gated edge-cover replay of the TLC state graph into Go; TLC trace validation + property monitor (also on free-running -race executions)"),
  "C06": dict(
   text="Blob.tla models fs/remote blob.ReadAt/Cache with one action per critical section (cache probe + bytesWriter set-up, single-flight join/lead, "
